@@ -35,11 +35,35 @@ def shape_ok(src, names):
     return int(ok(tree))
 
 
+def spelled(v):
+    """the operand of an eq case; kind "r" is a plain str spelling the formatting of a value in escape sequences"""
+    import re
+    if v["k"] != "r":
+        return enc.build_value(v)
+    s = str(enc.build_fmtstr(v["v"]))
+    j = v["variant"]
+    seq = r"\x1b\[([0-9;]*)m"
+    if j == 1:
+        s += "\x1b[0m"
+    elif j == 2:
+        s = "\x1b[m" + s
+    elif j == 3:
+        s = s.replace("\x1b[39m", "\x1b[0m").replace("\x1b[49m", "\x1b[0m")
+    elif j == 4:
+        s = re.sub("^(%s)(%s)" % (seq, seq), lambda m: m.group(3) + m.group(1), s)
+    elif j == 5:
+        s = re.sub("(%s)+$" % seq, "", s)
+    elif j == 6:
+        s = re.sub("^%s%s" % (seq, seq), lambda m: "\x1b[%s;%sm" % (m.group(1), m.group(2)), s)
+    return s
+
+
 class C19(PureCheck):
     pid = "C19"
+    warm_every = 3
     rule = ("pool of FmtStr values from Layouts(2,2) over {plain, red, bold+on_blue, red+bold=False} (same text/different "
             "formatting, same display/different run boundaries, empty runs, explicit False) plus every plain str of the pool's "
-            "texts; all ordered pairs (quick: a sampled pool of 150 -> all pairs) with ==, !=, reversed ==, hash, set and dict "
+            "texts and plain strs carrying escape sequences (the value's own terminal string and 6 other spellings of it); all ordered pairs (quick: a sampled pool of 150 -> all pairs) with ==, !=, reversed ==, hash, set and dict "
             "membership recorded together with both terminal strings; repr round trip (eval in a namespace holding only the "
             "fmtfuncs names) for every layout with >=1 run and texts with quotes/escapes. distinct_nontrivial = distinct pairs "
             "whose texts are equal but run lists differ, or repr cases with >=1 formatted run")
@@ -64,6 +88,15 @@ class C19(PureCheck):
                 if x["k"] == "s" and y["k"] == "s":
                     continue
                 yield {"op": "eq", "x": x, "y": y}
+        # plain strs that carry escape sequences: the exact terminal string of a value (equal) and other spellings
+        # of the same formatting (not equal: reset-all appended, empty SGR prepended, 39/49 written as 0, the first
+        # two sequences swapped or merged, closing sequences dropped)
+        fpool = [l for l in pool if any(any(a) for t, a in l if t)]
+        for l in (fpool[:80] if tier == "quick" else fpool):
+            for j in range(7):
+                r = {"k": "r", "v": l, "variant": j}
+                yield {"op": "eq", "x": {"k": "f", "v": l}, "y": r}
+                yield {"op": "eq", "x": r, "y": {"k": "f", "v": l}}
         reprpool = [l for l in L if len(l) >= 1] if tier == "thorough" else [l for l in L if len(l) >= 1][::3]
         for l in reprpool:
             yield {"op": "repr", "f": l}
@@ -75,7 +108,7 @@ class C19(PureCheck):
     def execute(self, inp):
         ev = dict(inp)
         if inp["op"] == "eq":
-            x, y = enc.build_value(inp["x"]), enc.build_value(inp["y"])
+            x, y = spelled(inp["x"]), spelled(inp["y"])
             ev["strx"] = enc.enc_text(str(x))
             ev["stry"] = enc.enc_text(str(y))
             ev["eq"] = int(bool(x == y))
